@@ -453,6 +453,9 @@ func init() {
 		checkCoercionErrors(r, prog, a, "c02")
 		checkJSONNumber(r, prog, a, "c02")
 		checkElementTransparency(r, prog, a, "c02")
+		r.importing = "C19"
+		checkSelectorString(r, prog, "c19") // "the raw string": a bare literal's text is the dotted join of its parts
+		r.importing = ""
 		r.Technique = "sibling-table extraction by abstract execution per reflect.Kind (kind→coercion, kind→comparator) compared with a spec table transcribed from the statement; constant-argument and single-call checks on the strconv wrappers; conversion census (no integer/float detour); path analysis of coercion-error propagation; event-order analysis of the json.Number narrowing"
 		r.Explain = "For each of the 27 kinds: scalars have a comparator whose asserted type is the coercion's result type and whose accessor is the one of that group (Int/int64, Uint/uint64, Float/float64, float32(Float())/float32, Bool/bool, String/string), non-scalars have none and equality against them returns an error; each coercion is exactly one strconv call with base 0/64 bits (ints), the field's width (floats) or ParseBool, applied to the literal's Raw text unmodified, returning strconv's error unchanged; no conversion between integer and floating types on either side; a failed coercion makes the matcher return (false, error) except the one named ErrSyntax skip for heterogeneous interface slices; json.Number narrows to int64 then float64 before the dispatch; matchers receive Indirect(ValueOf(value)). NOT decided: strconv's own arithmetic; pointer depth > 1 (Indirect is single-level)."
 		r.Assume = append(r.Assume, "strconv.ParseInt/ParseUint/ParseFloat/ParseBool implement Go literal syntax exactly")
